@@ -147,6 +147,38 @@ Proof.
   - vm_compute. discriminate.
 Qed.
 
+(* A comparator that folds distinct keys together (keys 1 = "id", 2 = "ID", fold = lower case):
+   the walk is sorted and still order-dependent.  This is why the census only accepts the plain
+   < on the walk key as SortedAfter and reports every other comparator as SortedCustomComparator. *)
+Lemma folded_comparator_refuted_lemma :
+  exists (fold : Z -> Z) (order1 order2 : list (Z * Z)),
+    Permutation order1 order2 /\ NoDup (map fst order1) /\
+    folded_sort_walk fold order1 <> folded_sort_walk fold order2.
+Proof.
+  exists (fun _ => 0%Z), [(1, 10); (2, 20)]%Z, [(2, 20); (1, 10)]%Z.
+  split; [apply perm_swap|]. split.
+  - simpl. repeat constructor; simpl; intuition discriminate.
+  - vm_compute. discriminate.
+Qed.
+
+(* ... and an injective fold keeps the walk order-independent *)
+Lemma injective_fold_indep_lemma :
+  forall (fold : Z -> Z), (forall a b, fold a = fold b -> a = b) ->
+  forall order1 order2 : list (Z * Z), Permutation order1 order2 -> NoDup (map fst order1) ->
+    folded_sort_walk fold order1 = folded_sort_walk fold order2.
+Proof.
+  intros fold inj o1 o2 P ND. unfold folded_sort_walk.
+  apply sorted_walk_indep_lemma with (le := fun a b : Z * Z => (fold (fst a) <= fold (fst b))%Z); auto.
+  - apply zsort_perm.
+  - apply (zsort_sorted (Z * Z) (fun kv => fold (fst kv))).
+  - intros e1 e2 I1 I2 L1 L2. assert (E : fst e1 = fst e2) by (apply inj; lia). clear L1 L2.
+    revert I1 I2 ND. clear P. induction o1 as [|h t IH]; simpl; [tauto|].
+    intros I1 I2 ND. inversion ND as [|? ? Nh NDt]; subst.
+    destruct I1 as [->|I1], I2 as [->|I2]; auto.
+    + exfalso. apply Nh. rewrite E. now apply in_map.
+    + exfalso. apply Nh. rewrite <- E. now apply in_map.
+Qed.
+
 (* ------------------------------------------------------------------------------------ *)
 (* Commutative folds                                                                     *)
 
